@@ -47,7 +47,8 @@ CLAIMED.update({
          "Engine L probes that a send on a full queue does not return and resumes after the reducer's recv. Liveness "
          "('eventually reduced') is enabledness in the model; OS wake-ups are trusted.", "5 C05",
          "Coq invariants (bound, losslessness) + lockstep replay with blocking probes (engine L)"),
- "C06": ("Coq: drop policies never wait (every phase enabled); one send keeps lastn/firstn capacity; in every reachable "
+ "C06": ("Coq: drop policies never wait (every phase enabled); one send - and a burst of any length with no consumer running - "
+         "keeps lastn/firstn capacity of queue ++ burst; in every reachable "
          "world enqueued is a permutation of taken + evicted + queued and taken is an in-order subsequence. Engine L "
          "schedules the reducer between the DropOldest phases; the C06 monitor checks conservation and Err-iff-dropped.",
          "5 C06", "Coq conservation invariant + lockstep schedule replay (engine L) + conservation monitor"),
@@ -65,8 +66,9 @@ CLAIMED.update({
          "protocol (nothing is enqueued after close took the sender; the marker is last; the reducer leaves its loop "
          "with an empty queue), the barrier at the point where the pool join can return (reducer done, queue empty, under "
          "BlockOnFull enqueued = taken) and finality (a stopped world stays stopped along every continuation: no "
-         "reducer-context callback, effect run, queue traffic, write-back or accepted dispatch is ever added). Partial: "
-         "channeled deliveries after stop and the 3 s timeout are outside the theorem. Engine L constructs the races "
+         "reducer-context callback, effect run, queue traffic, write-back or accepted dispatch is ever added; and, "
+         "C04_forwarding_is_final, nothing is forwarded to any subscription channel any more once the reducer has left its "
+         "loop). Partial: deliveries of what was forwarded earlier and the 3 s timeout. Engine L constructs the races "
          "(dispatcher blocked in a full queue while close waits for TX, every backlog, probes that stop waits).",
          "5 C04", "Coq invariants (close protocol, barrier, finality) + lockstep schedule replay with probes (engine L) + monitor"),
  "C15": ("In the model dropping a DroppableStore is the stop() step sequence, so the C04 theorems hold verbatim; the "
@@ -87,8 +89,10 @@ CLAIMED.update({
          "(stalled subscriber, capacities 1..3, all policies, probe that unsubscribe waits) and the C10 monitor.",
          "5 C10", "Coq channel-stream invariant + lockstep schedule replay with probes (engine L) + monitor"),
  "C11": ("Coq: one fresh worker per effect handed to the pool, whose first step runs it in its own context; over whole "
-         "histories no thread ever logs two effect runs (every schedule); after stop() nothing runs (C04 finality). Partial: "
-         "Effect::Action ordering and 'every effect of an accepted action' are decided by engine L (four effect kinds, panics, "
+         "histories no thread ever logs two effect runs (every schedule); a worker acts only after its spawn and effects "
+         "are handed out while their action is processed (WorldSpawn.v); after stop() nothing runs (C04 finality). Partial: "
+         "'reduced exactly once' for Effect::Action and 'every effect of an accepted action' are decided by engines L and F "
+         "(four effect kinds, panics, task storms, "
          "thunks dispatching, stop before/after spawn) and the C11 monitor; effects of backlog actions skipped after stop() took "
          "the pool (F4) is a listed known finding, witnessed in Coq and on the real code.",
          "5 C11", "Coq spawn/at-most-once/finality theorems + lockstep schedule replay (engine L) + monitor with known class F4"),
